@@ -361,8 +361,29 @@ def rule_r2(prog, res):
                      '_type_info' in unparse(n.value.generators[0].iter)))]
     sized = bool(inits)
     for n in inits:
-        dflt = isinstance(n.value, ast.ListComp) and \
-            'Attributes.default' in unparse(n.value.elt)
+        elt_txt = unparse(n.value.elt) if isinstance(
+            n.value, ast.ListComp) else ''
+        if isinstance(n.value, ast.ListComp) and isinstance(
+                n.value.elt, ast.Call) and isinstance(
+                n.value.elt.func, ast.Name):
+            helper = m.functions.get(n.value.elt.func.id)
+            if helper is not None:
+                elt_txt += ' ' + unparse(helper.node)
+        dflt = '.default' in elt_txt.replace('.default_factory', '')
+        fac = 'default_factory' in elt_txt
+        if dflt:
+            res.ob('R2', '%s:%d' % (m.relpath, n.lineno), 'omitted arguments '
+                   '%s their default_factory' % ('get the value of' if fac
+                                                 else 'ignore'),
+                   'ok' if fac else 'VIOLATED')
+            if not fac:
+                res.finding('R2', '_FunctionCall.__call__|default-factory-'
+                            'ignored', '%s:%d' % (m.relpath, n.lineno),
+                            'the argument slots start from Attributes.default '
+                            'only: Integer(default_factory=lambda: 5) omitted '
+                            'gives None through NullServer while every wire '
+                            'protocol applies the factory '
+                            '(_set_member_default)')
         res.ob('R2', '%s:%d' % (m.relpath, n.lineno), 'omitted arguments '
                'start as %s' % unparse(n.value)[:50],
                'ok' if dflt else 'VIOLATED')
@@ -925,9 +946,16 @@ MUTANTS = [
                    "    if def_val:\n"), 'truthiness'),
     Mutant('null-slots-start-as-none', 'R2', 'fire', 'spyne/server/null.py',
            in_func('_FunctionCall.__call__',
-                   "ctx.in_object = [v.Attributes.default for v in _type_info"
+                   "ctx.in_object = [_get_default(v) for v in _type_info"
                    ".values()]", "ctx.in_object = [None] * len(_type_info)"),
            'defaults'),
+    Mutant('null-default-factory-ignored', 'R2', 'fire',
+           'spyne/server/null.py',
+           in_func('_FunctionCall.__call__',
+                   "ctx.in_object = [_get_default(v) for v in _type_info"
+                   ".values()]",
+                   "ctx.in_object = [v.Attributes.default for v in _type_info"
+                   ".values()]"), 'default-factory-ignored'),
     Mutant('null-own-fields-only', 'R2', 'fire', 'spyne/server/null.py',
            in_func('_FunctionCall.__call__',
                    "_type_info = in_message.get_flat_type_info(in_message)",
